@@ -148,7 +148,7 @@ def spawned_before(p1, p2):
 
 
 def oneshot(rng, T, roots, fail=(), gated=True, tag='os', cap=None, hang_s=None, with_inputs=True, second_run=True, pre_args=(), hold_s=0.0,
-            implied_p=0.3):
+            implied_p=0.3, implied_edges=None, prefer=None):
     """Runs `zinoma <roots>` once. Returns (obs, verdicts): verdicts = {property_id: [text, ...]} for violated properties."""
     d = vf.scratch_dir(tag)
     spec = {}
@@ -170,11 +170,12 @@ def oneshot(rng, T, roots, fail=(), gated=True, tag='os', cap=None, hang_s=None,
             if s['kind'] != 'build':
                 continue
             for dd in list(dict.fromkeys(s['deps'])):
-                if T[dd]['kind'] == 'build' and rng.random() < implied_p:
+                chosen = ([t, dd] in [list(e) for e in implied_edges]) if implied_edges is not None else (rng.random() < implied_p)
+                if T[dd]['kind'] == 'build' and chosen:
                     spec[dd]['output'] = ['paths: [out/%s.txt]' % dd]
                     spec[dd]['effect'] = 'mkdir -p out; echo "built" > out/%s.txt' % dd
                     spec[t]['input'] = spec[t].get('input', []) + ['%s.output' % dd]
-                    if implied_p >= 1.0 or rng.random() < 0.7:
+                    if implied_p >= 1.0 or implied_edges is not None or rng.random() < 0.7:
                         spec[t]['deps'] = [x for x in spec[t]['deps'] if x != dd]      # the edge exists through the input only
                     implied.append((t, dd))
     proj = blackbox.Project(d, spec)
@@ -199,7 +200,7 @@ def oneshot(rng, T, roots, fail=(), gated=True, tag='os', cap=None, hang_s=None,
 
     try:
         if gated:
-            outcome = blackbox.drive_to_end(run, rng, fail=fail, hang_s=hang_s, hold_s=hold_s)
+            outcome = blackbox.drive_to_end(run, rng, fail=fail, hang_s=hang_s, hold_s=hold_s, prefer=prefer)
         else:
             outcome = 'exited' if run.wait_exit(hang_s or blackbox.HANG_S) else ('alive-idle' if run.idle_for(1.0) else 'hung')
         tr = run.trace()
